@@ -42,7 +42,7 @@ def C01(rep, prog, tier):
     _run(rep, wrappers.shortcut_dominance, ex)
     _run(rep, part.check_all, ex, only=("inference.consistency_sat.consistency",))
     _answers_reach_the_caller(rep, ex)
-    _per_query_isolation(rep, ex, table)
+    _per_query_isolation(rep, ex, table, only=("p-entailment",))
 
 
 def _answers_reach_the_caller(rep, ex):
@@ -86,7 +86,7 @@ def C02(rep, prog, tier):
     _run(rep, wrappers.shortcut_dominance, ex)
     _run(rep, part.check_all, ex, only=("inference.consistency_sat.consistency",))
     _answers_reach_the_caller(rep, ex)
-    _per_query_isolation(rep, ex, table)
+    _per_query_isolation(rep, ex, table, only=("system-z",))
 
 
 def C03(rep, prog, tier):
@@ -109,7 +109,7 @@ def C03(rep, prog, tier):
     _run(rep, part.check_all, ex)
     _encoding_and_enumeration(rep, ex)
     _answers_reach_the_caller(rep, ex)
-    _per_query_isolation(rep, ex, table)
+    _per_query_isolation(rep, ex, table, only=("system-w",))
 
 
 def C04(rep, prog, tier):
@@ -134,7 +134,7 @@ def C04(rep, prog, tier):
     _run(rep, part.check_all, ex)
     _encoding_and_enumeration(rep, ex)
     _answers_reach_the_caller(rep, ex)
-    _per_query_isolation(rep, ex, table)
+    _per_query_isolation(rep, ex, table, only=("lex_inf",))
 
 
 def C07(rep, prog, tier):
@@ -370,18 +370,18 @@ def C12(rep, prog, tier):
         rep.only = None
 
 
-def _operator_inference_paths(rep, ex, table):
+def _operator_inference_paths(rep, ex, table, only=None):
     """(site, abstract paths) of `_inference` and of the recursive cores of every registered operator."""
-    cls = _class_of(table, ("p-entailment", None))
+    cls = _class_of(table, ("p-entailment", None)) if only is None or "p-entailment" in only else None
     if cls:
         _run(rep, pent.check, ex, cls, strict=True, extended=True, floors=False)
         yield f"inference/p_entailment.py:{cls.rsplit('.', 1)[1]}._inference", ex.cache.get((f"{cls}._inference", "pent"), [])
-    cls = _class_of(table, ("system-z", None))
+    cls = _class_of(table, ("system-z", None)) if only is None or "system-z" in only else None
     if cls:
         yield sysz.inference_entry(rep, ex, cls)
     for key, name, lex in ((("system-w", False), "rc2", False), (("system-w", True), "z3", False),
                            (("lex_inf", False), "rc2", True), (("lex_inf", True), "z3", True)):
-        cls = _class_of(table, key)
+        cls = _class_of(table, key) if only is None or key[0] in only else None
         if cls:
             be = mcsops.Backend(name, cls, lex=lex)
             site, paths = mcsops.w_entry(rep, ex, be, strict=True, extended=True, prefix="LEX" if lex else "W", n_objects=2 if lex else 1)
@@ -389,14 +389,14 @@ def _operator_inference_paths(rep, ex, table):
             be.discover_query_slots(ex)
             rsite = f"{site.rsplit('.', 1)[0]}._rec_inference"
             yield rsite, ex.run(f"{cls}._rec_inference", be.rec_setup(), summaries=be.summaries(), key=f"{'lexrec' if lex else 'wrec'}-{name}", hooks=be.hooks())
-    cls = _class_of(table, ("c-inference", None))
+    cls = _class_of(table, ("c-inference", None)) if only is None or "c-inference" in only else None
     if cls:
         _run(rep, cinf.answer, ex, cls)
         yield f"inference/c_inference.py:{cls.rsplit('.', 1)[1]}._inference", ex.cache.get((f"{cls}._inference", "cinf"), [])
 
 
 
-def _per_query_isolation(rep, ex, table):
+def _per_query_isolation(rep, ex, table, only=None):
     """An answer depends on the base and on the query asked, not on the queries asked before it on the same manager:
     nothing an operator asserts for one query stays in a constraint object the next query finds (STATE.solver-per-query),
     and the conditionals of a base are told apart by what they are, object by object (OBJ.identity)."""
@@ -404,7 +404,7 @@ def _per_query_isolation(rep, ex, table):
     prev = rep.only
     rep.only = {"STATE.solver-per-query"}
     try:
-        for site, paths in _operator_inference_paths(rep, ex, table):
+        for site, paths in _operator_inference_paths(rep, ex, table, only=only):
             _run(rep, wrappers.solver_per_query, site, paths)
     except AnalysisError as e:
         # (an operator entry this group cannot read: recorded, the other groups stand on their own evidence)
@@ -569,7 +569,7 @@ def C05(rep, prog, tier):
     _run(rep, wrappers.shortcut_dominance, ex)
     _encoding_and_enumeration(rep, ex)
     _answers_reach_the_caller(rep, ex)
-    _per_query_isolation(rep, ex, table)
+    _per_query_isolation(rep, ex, table, only=("c-inference",))
 
 
 def C16(rep, prog, tier):
